@@ -26,7 +26,7 @@ REG = {}
 SHARED = ("_write_buffer", "write_buffer", "write_lock", "_write_msg_queue", "add_out_msg", "remove_out_bytes", "demand_attention", "send", "select", "is_stopped")
 WQ, WQ_SRC = coop.coop(PeerConnection.work_write_queue, waiters=("get",), registry=REG, shared=SHARED)
 ROB, _ROB_SRC = coop.coop(PeerConnection.remove_out_bytes, registry=REG, shared=SHARED)
-HC, HC_SRC = coop.coop(Node._handle_connections, callees=("remove_out_bytes",), waiters=("select",), registry=REG, shared=SHARED)
+HC, HC_SRC = coop.coop(Node._handle_connections, callees=("remove_out_bytes",), waiters=("select", "send"), registry=REG, shared=SHARED)
 
 
 class EndLoop(BaseException):
@@ -41,9 +41,28 @@ class SendSock:
         self.closed = False
         self.inq = []
         self.backlog = []
+        self._pinned = None
 
     def fileno(self):
         return self._fn
+
+    def coop_send(self, data):
+        """socket.send as the C implementation behaves: it pins its argument's buffer and releases the GIL while the kernel
+        copies - other threads run in between (one scheduling point), and a resizable buffer cannot be resized meanwhile"""
+        if self._pinned is None:
+            try:
+                self._pinned = memoryview(data)
+            except TypeError:
+                self._pinned = data
+            return False, None
+        mv, self._pinned = self._pinned, None
+        try:
+            return True, self.send(bytes(mv))
+        except Exception as e:
+            return True, e
+        finally:
+            if isinstance(mv, memoryview):
+                mv.release()
 
     def close(self):
         self.closed = True
@@ -196,7 +215,7 @@ def fifo_body(k1, sched, tgt):
                 s2._fn = 78
                 n._add_peer_connection(c2, s2, B.PEER_TRANSPORT_TCP)
                 second = _msgs(["avp", "plain"])[0].as_bytes() + _msgs(["plain"])[0].as_bytes()
-                c2._write_buffer = second
+                c2._write_buffer = type(c2._write_buffer)(second)          # (whatever buffer type the connection uses)
                 others.append((c2, s2))
             WORLD.pipe.clear()
             vs = VSelect(c, s, others)
